@@ -133,6 +133,13 @@ func policy(srv *udpnet.Server, c Case) func(rx *simbmc.Rx) []udpnet.Reply {
 			}
 			srv.ValidSent += len(normal)
 			return normal
+		case "lose-one":
+			// only this one request goes unanswered; the BMC answers again afterwards
+			if faulted == 1 {
+				return nil
+			}
+			srv.ValidSent += len(normal)
+			return normal
 		case "late-junk-stream":
 			// no reply; instead datagrams that are not even RMCP (empty, two bytes,
 			// a wrong first byte) trickle in, each shortly before the attempt's time
@@ -178,6 +185,7 @@ func policy(srv *udpnet.Server, c Case) func(rx *simbmc.Rx) []udpnet.Reply {
 }
 
 type outcome struct {
+	records int // Full Sensor Records returned by an SDR retrieval
 	elapsed time.Duration
 	err     error
 	hung    bool
@@ -234,6 +242,7 @@ func runOnce(c Case, seed uint64) (outcome, error) {
 	defer cancel()
 	done := make(chan error, 1)
 	start := time.Now()
+	records := 0
 	go func() {
 		var err error
 		switch c.Call {
@@ -250,7 +259,9 @@ func runOnce(c Case, seed uint64) (outcome, error) {
 		case "close":
 			err = e.sess.Close(ctx)
 		case "sdr":
-			_, err = bmc.RetrieveSDRRepository(ctx, e.sess)
+			var repo bmc.SDRRepository
+			repo, err = bmc.RetrieveSDRRepository(ctx, e.sess)
+			records = len(repo)
 		case "dcmi":
 			_, err = dcmi.GetSensorInfo(ctx, e.sess)
 		}
@@ -264,6 +275,7 @@ func runOnce(c Case, seed uint64) (outcome, error) {
 	select {
 	case o.err = <-done:
 		o.elapsed = time.Since(start)
+		o.records = records
 	case <-time.After(d + 5*time.Second):
 		o.hung = true
 		o.elapsed = time.Since(start)
@@ -291,6 +303,19 @@ func judge(c Case, seed uint64) (msg string, nontrivial bool, inconclusive bool)
 		last = o
 		if o.hung {
 			return fmt.Sprintf("%v: call had not returned %v after its deadline", c, 5*time.Second), o.reached, false
+		}
+		if c.Fault == "lose-one" {
+			// a single lost reply: the call may fail or recover, but a retrieval that
+			// reports success has got a valid response at every step, so it holds
+			// all four records of the repository
+			if o.err == nil && c.Call == "sdr" && o.records != 4 {
+				return fmt.Sprintf("%v: retrieval reported success with %d of 4 records although the reply to request %d was lost", c, o.records, c.K+1), true, false
+			}
+			if o.elapsed <= limit {
+				return "", o.reached, false
+			}
+			over++
+			continue
 		}
 		if o.err == nil && c.Fault != "late" && c.D >= 0 && o.reached {
 			// the fault persists from step k on, so no valid final response can have arrived
@@ -376,6 +401,10 @@ func cases() []Case {
 	}
 	out = append(out, Case{Call: "sessionless", Fault: "late-junk-stream", K: 0, T: 400 * time.Millisecond, D: 1300 * time.Millisecond},
 		Case{Call: "newsession", Fault: "late-junk-stream", K: 2, T: 400 * time.Millisecond, D: 1300 * time.Millisecond})
+	// one lost reply at each step of an SDR retrieval, with time to recover
+	for k := 0; k < 12; k++ {
+		out = append(out, Case{Call: "sdr", Fault: "lose-one", K: k, T: 60 * time.Millisecond, D: 4 * time.Second})
+	}
 	// closing again after a close that failed: the second close is a blocking call
 	// like any other and cannot succeed against a silent BMC
 	for _, f := range []string{"blackhole", "garbage"} {
@@ -410,7 +439,7 @@ func TestDeadlines(t *testing.T) {
 		// a seed-dependent stride through the enumeration, keeping every (call, fault) pair
 		stride := 5
 		for i, c := range all {
-			if (i+int(ev.Seed))%stride == 0 || c.T > time.Second || (strings.HasPrefix(c.Fault, "truncated-") && c.D >= 2*c.T) || c.Prelude != "" || c.Fault == "late-junk-stream" {
+			if (i+int(ev.Seed))%stride == 0 || c.T > time.Second || (strings.HasPrefix(c.Fault, "truncated-") && c.D >= 2*c.T) || c.Prelude != "" || c.Fault == "late-junk-stream" || c.Fault == "lose-one" {
 				sel = append(sel, c)
 			}
 		}
@@ -464,7 +493,7 @@ func TestDeadlines(t *testing.T) {
 }
 
 func TestCoverage(t *testing.T) {
-	need := []string{"deadlines-complete", "after-failed-call:close:failed-close"}
+	need := []string{"deadlines-complete", "after-failed-call:close:failed-close", "fault:sdr:lose-one"}
 	for _, call := range []string{"sessionless", "newsession", "insession", "close", "sdr", "dcmi"} {
 		need = append(need, "after-failed-call:"+call+":timed-out", "after-failed-call:"+call+":expired-context", "control:"+call, "fault:"+call+":late-junk-stream", "fault:"+call+":blackhole", "fault:"+call+":garbage", "fault:"+call+":garbage-then-blackhole")
 	}
